@@ -32,7 +32,10 @@ N = {"quick": (8, 24), "thorough": (16, 400)}
 
 def plan(tier, seed):
     ns, per = N[tier]
-    return [{"n": per, "allk": tier == "thorough"} for _ in range(ns)]
+    shards = [{"n": per, "allk": tier == "thorough"} for _ in range(ns)]
+    if tier == "thorough":
+        shards.append({"repo_tests": True, "n": 0, "allk": False})
+    return shards
 
 
 def definitions(ctx, c, rng):
@@ -186,6 +189,11 @@ def make_2d_uniform(rng):
 
 
 def run_shard(ctx, shard):
+    if shard.get("repo_tests"):
+        from ..core import run_repo_tests_under_contracts
+        ms.install(ctx)
+        run_repo_tests_under_contracts(ctx)
+        return
     ms.install(ctx)
     rng = ctx.rng()
     for i in range(shard["n"]):
